@@ -133,16 +133,10 @@ theorem ro_flushMem (s : State) (oi : Nat) (o : Obj) (force : Bool) (hst : s.str
     | none =>
       simp only
       split
-      · -- clear and reload: memory only
-        have key : ∀ X : State, X.core = s.core → AllClean X ∧ DiskSame s X := by
-          intro X hX
-          exact (RO.of_core hX).2 hclean
+      · -- merge the file content in place: memory only
         split
-        all_goals first
-          | exact key _ (by simp)
-          | (split
-             · exact key _ (by simp)
-             · exact ((RO.of_core (by simp)).trans (ro_mergeInto _ _ _ _)).2 hclean)
+        · exact ⟨hclean, rfl, rfl, rfl⟩
+        · exact (ro_mergeInto _ _ _ _).2 hclean
       · exact ⟨hclean, rfl, rfl, rfl⟩
     | some e =>
       have hm : e.modified = false := by
@@ -155,10 +149,8 @@ theorem ro_flushMem (s : State) (oi : Nat) (o : Obj) (force : Bool) (hst : s.str
         exact hclean p (List.mem_filter.mp hp).1
       · exact (ro_set (s := s) (s' := s) (r := o.res) (e := { e with modified := false }) rfl rfl
           (fun _ => by simp [CleanE, hst]) rfl rfl rfl rfl).2 hclean
-  · -- rebuild from scratch: memory only
-    refine (RO.trans ?_ (ro_mergeInto _ _ _ _)).2 hclean
-    refine RO.trans ?_ (ro_own _ _ _ _)
-    exact RO.of_same rfl rfl rfl rfl rfl
+  · -- a container of its own: memory only
+    exact (RO.of_same (s := s) rfl rfl rfl rfl rfl).2 hclean
 
 theorem ro_flushOne (s : State) (oi : Nat) (force : Bool) : RO s (flushOne s oi force).1 := by
   unfold flushOne
